@@ -61,7 +61,13 @@ def run_history(hist):
                        stderr=subprocess.PIPE, env=core.repo_env(), timeout=600)
     if p.returncode != 0:
         return None, p.stderr.decode('utf-8', 'replace')[-300:]
-    return json.loads(p.stdout.decode()), ''
+    d = json.loads(p.stdout.decode())
+    CHANGED.update(d.get('globals_changed', []))
+    return d['results'], ''
+
+
+# module-level objects of yalafi.* that a history modified (hist_worker.py)
+CHANGED = set()
 
 
 def norm(r):
@@ -126,6 +132,13 @@ def run(tier, seed, build, res):
                 break
     if len(res.samples) < 3:
         res.sample({'history': [POOL[i][1] for i in hists[-1]]})
+    # processing a document must not write to module-level state: whatever
+    # is written there is visible to the next document
+    for name in sorted(CHANGED):
+        res.failures.append(('c17-global:' + name, {'global': name},
+                             'processing documents modified the module-level object '
+                             '%s (it outlives the call)' % name))
+    res.extra['module_level_objects_modified'] = sorted(CHANGED)
     server_histories(rng, res, 4 if tier == 'quick' else 30)
 
 
